@@ -321,9 +321,9 @@ def merge_text(items):
         else: out.append(it)
     return out
 
-def expand(files, top):
+def expand(files, top, max_fetch=150):
     """-> (ctx, items): items = children of the result document (None when an error cause was recorded)"""
-    ctx = Ctx(files, top)
+    ctx = Ctx(files, top, max_fetch)
     d = files[top]['doc']
     turi = uri_of(top)
     items = proc_nodes(ctx, d['pro'] + [d['root']] + d['epi'], turi, [turi])
